@@ -223,7 +223,7 @@ PROPS["C14"] = {
                   "__iter__ (generator holding the lock across yields) and open/close are covered by the bounded layer only.",
 }
 PROPS["C05"] = {
-    "units": ["contracts.c05_functormap", "contracts.c15_buffers"],
+    "units": ["contracts.c05_functormap", "contracts.c05_mulpmap", "contracts.c15_buffers"],
     "bounded": True,
     "level": "other",
     "trusted_base": ["pyvc VC generator (/verif/pyvc)", "z3", "Python semantics as listed in DESIGN.md §2.3",
@@ -233,8 +233,13 @@ PROPS["C05"] = {
                    "over the ghost channel (sent / received indices) and the reorder Buffer; the index attached to each work item is the next "
                    "one (pre@put), each blocking get is entered only while a sent item is unreceived (owed@get), the output is exactly "
                    "[f(x) for x in data] in input order, and at exit nothing is in flight (repeated calls independent); the nested chunking "
-                   "generator cuts the input into consecutive non-empty chunks. Bounded only: mul_p_map (class-level queues, process list "
-                   "comprehension), FunctorWorker.run / FunRunner.run loop bodies, __enter__/__exit__ (sentinels, joins), real-process runs.",
+                   "generator cuts the input into consecutive non-empty chunks. mul_p_map (all six loops, class-level queues as the two ends "
+                   "of the channel): the index attached to item d is its position, exactly one stop token per worker, blocking gets only "
+                   "while a result is owed, every worker joined and only AFTER every result was taken from the queue (owed@join), and the "
+                   "returned list is [f(x) for x in data]: 'sorted by pairwise distinct indices 0..n-1 => position p holds index p' and "
+                   "'every index was received' are lemmas proved by induction. Bounded only: FunctorWorker.run / FunRunner.run loop bodies "
+                   "(the own-pool worker loop is proved in C04), FunctorMap.__enter__/__exit__, real-process runs incl. results bigger than "
+                   "a pipe.",
     "level_text": "Proof of the consumer/producer loop of FunctorMap under the demonic queue environment; bounded real-process runs for the rest.",
     "level_note": "Liveness proper is not claimed: owed@get is the safety surrogate (never blocked on a result that will not come), worker "
                   "progress is an assumption.",
